@@ -621,7 +621,7 @@ class IPPO(MultiAgentRLAlgorithm):
         dones = dones.squeeze()
         values = values.squeeze()
         next_state = vectorize_experiences_by_agent(next_state, dim=0)
-        next_done = vectorize_experiences_by_agent(next_done)
+        next_done = vectorize_experiences_by_agent(next_done, dim=0)
 
         # Bootstrapping returns using GAE advantage estimation
         dones = dones.long()
